@@ -545,7 +545,8 @@ def run_deep(binary, tag, depth=300000):
     phases = [l.strip() for l in open(out)] if os.path.exists(out) else []
     last_call = [p for p in phases if not p.startswith(("WRONG", "PANIC", "done"))]
     last_call = last_call[-1] if last_call else "build"
-    prop = last_call.split(":")[0] if last_call.split(":")[0].startswith("C") else "C03"
+    props = [x for x in last_call.split(":")[0].split(",") if x.startswith("C")] or ["C03"]
+    prop = props[0]
     fs = []
     case = {"depth": depth, "phases": phases, "exit": rc, "how": "itverif deep --depth %d (a chain: node i is the only child of node i-1; thread with a 2 MiB stack)" % depth}
     if timed_out:
@@ -563,6 +564,10 @@ def run_deep(binary, tag, depth=300000):
         fs = [{"prop": "C02", "kind": "deep:abort", "detail": d, "case": case}, {"prop": prop, "kind": "deep:abort", "detail": d, "case": case}]
     else:
         raise ToolError("deep harness failed (rc=%s): %s %s" % (rc, o[-1000:], phases[-3:]))
+    # a phase may belong to several properties ("C04,C07:remove_subtree")
+    for f in list(fs):
+        if f["prop"] == prop:
+            fs += [dict(f, prop=q) for q in props[1:]]
     return {"depth": depth, "phases_completed": len([p for p in phases if p not in ("done",)]), "exit": rc}, fs
 
 
